@@ -11,6 +11,8 @@ import Verif.Properties.C04
 #print axioms C04.analyzer_keys_rewritable
 #print axioms C04.rewriteSchemaToRef_under_not
 #print axioms C04.keyTokens_key
+#print axioms C04.updateRef_sets_ref
+#print axioms C04.updateRef_keeps_siblings
 #print axioms C01.cert_sound
 #print axioms C02.canonical_sound
 #print axioms C03.uniqify_fresh
